@@ -849,7 +849,7 @@ def _flip(data, bit):
 sign_case = st.fixed_dictionaries({
     "ks": _secret(), "id": _ident(), "id2": _ident(), "msg": _blob(), "msg2": _blob(), "r": _nonce(),
     "cuts": st.lists(st.integers(0, 255), max_size=4), "vcuts": st.lists(st.integers(0, 255), max_size=2),
-    "neg": st.sampled_from(["id", "msg", "flip", "flip", "flip", "trunc", "extend", "master", "t1zero", "hzero", "negS"]),
+    "neg": st.sampled_from(["id", "msg", "flip", "flip", "flip", "trunc", "extend", "master", "t1zero", "hzero", "negS", "unreduced", "unreduced"]),
     "bits": st.lists(st.integers(0, 831), min_size=2, max_size=2)})
 
 
@@ -915,6 +915,17 @@ def sign(case, ctx):
         ctx.check(_verify(l, IO.sig_der(0, S), mpk, ident, msg) != 1, "signature with h = 0 verifies (%s)" % where, "verify/h-zero-accepted")
     elif neg == "negS":
         ctx.check(_verify(l, IO.sig_der(hh, M.g1_neg(S)), mpk, ident, msg) != 1, "signature with -S verifies (%s)" % where, "verify/negS-accepted")
+    elif neg == "unreduced":
+        # the same point written with a coordinate c + p (fits in 32 bytes for about 29 % of coordinates): bytes the signer never produced
+        done = 0
+        for name, off, c in (("S-x", 40, S[0]), ("S-y", 72, S[1])):
+            if c + PP < R:
+                done += 1
+                alt = sig[:off] + M.i2b(c + PP) + sig[off + 32:]
+                ctx.case(nontrivial=True, classes=["unreduced:" + name], ident=[case, name])
+                ctx.check(_verify(l, alt, mpk, ident, msg) != 1, "signature whose %s is written as %s + p verifies (%s)" % (name, name, where), "verify/unreduced-accepted/" + name)
+        if not done:
+            ctx.note("no-coordinate-fits-plus-p")
 
 
 full_case = st.fixed_dictionaries({"ks": _secret(), "id": _ident(255), "id2": st.just({"x": "00"}), "msg": _blob(), "msg2": st.just(""), "r": _nonce(),
@@ -1003,7 +1014,7 @@ def _decrypt(l, key, ident, ct):
 
 enc_case = st.fixed_dictionaries({
     "ke": _secret(), "id": _ident(), "id2": _ident(), "msg": st.one_of(_blob(), st.sampled_from([0, 1, 31, 32, 33, 127, 128, 254, 255]).map(lambda n: hb(bytes(range(n))))),
-    "r": _nonce(), "neg": st.sampled_from(["key", "idstr", "flip", "flip", "flip", "trunc", "extend", "t1zero", "master"]),
+    "r": _nonce(), "neg": st.sampled_from(["key", "idstr", "flip", "flip", "flip", "trunc", "extend", "t1zero", "master", "unreduced", "unreduced"]),
     "bits": st.lists(st.integers(0, 1 << 16), min_size=2, max_size=2)})
 
 
@@ -1073,6 +1084,19 @@ def enc(case, ctx):
     elif neg == "flip":
         for b in case["bits"]:
             _ct_flip(ctx, l, key, ident, msg, ct, b % (8 * len(ct)), where, case)
+    elif neg == "unreduced":
+        reg = IO.ct_regions(len(msg))
+        done = 0
+        for name in ("c1-x", "c1-y"):
+            off = reg.index(name)
+            c = int.from_bytes(ct[off:off + 32], "big")
+            if c + PP < R:
+                done += 1
+                alt = ct[:off] + M.i2b(c + PP) + ct[off + 32:]
+                ctx.case(nontrivial=True, classes=["unreduced:" + name], ident=[case, name])
+                ctx.check(_decrypt(l, key, ident, alt)[0] != 1, "ciphertext whose %s is written as %s + p decrypts (%s)" % (name, name, where), "decrypt/unreduced-accepted/" + name)
+        if not done:
+            ctx.note("no-coordinate-fits-plus-p")
     elif neg == "trunc":
         ctx.check(_decrypt(l, key, ident, ct[:-1])[0] != 1, "truncated ciphertext decrypts (%s)" % where, "decrypt/truncated-accepted")
     elif neg == "extend":
